@@ -43,6 +43,13 @@ def run(ck, module=("Properties_C01", "Properties_C01b", "Properties_SrcIO", "Sr
             l2.append("v%d ver %d %s %s" % (i, c.T, wv.hexs(c.key), f))
     impl2 = wv.run_lines([exe], l2, env=env)
     model2 = wv.run_lines([mdrv], l2, env=env)
+    # the same decryptions in a process CONFINED TO ONE CPU (taskset -c 0): the result must not depend on how many processors the
+    # decrypting run may use (a worker count derived from the machine instead of from T changes which stream decrypts which chunk)
+    import shutil
+    pinned = {}
+    if shutil.which("taskset"):
+        pinned = wv.run_lines(["taskset", "-c", "0", exe], [l for l in l2 if l.split()[1] == "dec"][:: 1 if big else 2], env=env)
+        ck.cov["decryptions_confined_to_one_cpu"] = len(pinned)
     dist = ck.cov.setdefault("case_classes", {})
     distinct = set()
     corr = 0
@@ -64,6 +71,9 @@ def run(ck, module=("Properties_C01", "Properties_C01b", "Properties_SrcIO", "Sr
             ck.violation("decrypt(encrypt(P)) != P or decryption did not report success (n=%d, cmode=%d, hmode=%d, T=%d): %s" % (c.n, c.cm, c.hm, c.T, dhead[:40]), rep)
         elif vhead != "OK -":
             ck.violation("verification of a freshly encrypted file failed", rep)
+        elif "d%d" % i in pinned and split_impl(pinned["d%d" % i])[0] != want:
+            rep["decrypt_confined_to_one_cpu"] = split_impl(pinned["d%d" % i])[0][:400]
+            ck.violation("decrypt(encrypt(P)) != P when the decrypting process is confined to one CPU (taskset -c 0) while the encrypting one was not (n=%d, cmode=%d, T=%d)" % (c.n, c.cm, c.T), rep)
         else:
             if ehead != model.get("e%d" % i) or dhead != model2.get("d%d" % i) or vhead != model2.get("v%d" % i):
                 corr += 1
